@@ -119,7 +119,7 @@ SetCode(s, a, data) ==
 Finish(M, outcome, data) ==
   LET f == Top(M)
       n == Len(M.fr)
-      isCreate == f.kind = "create"
+      isCreate == f.kind \in {"create", "create2"}
       depositFails == isCreate /\ outcome = "ok" /\ data.sz # 0 /\ DepositByFrameGas /\ f.fg = "low"
       eff  == IF depositFails /\ Homestead THEN "fail" ELSE outcome
       st1  == IF eff = "ok"
@@ -127,7 +127,9 @@ Finish(M, outcome, data) ==
                 ELSE f.snapSt
       lg1  == IF eff = "ok" THEN M.logs ELSE f.snapLogs
       dev1 == M.dev \cup (IF depositFails THEN {"deposit"} \cup (IF Homestead THEN {} ELSE {"frontier-create"}) ELSE {})
-      okw  == IF eff = "ok" THEN "1" ELSE "0"
+      \* Frontier rule (APP): the failed deposit is not reverted; opCreate then pushes the address, opCreate2
+      \* (which has no Homestead case) pushes 0 for any error although the state was kept
+      okw  == IF eff = "ok" /\ ~(depositFails /\ f.kind = "create2") THEN "1" ELSE "0"
       rd1  == IF isCreate THEN (IF eff = "revert" THEN data ELSE RDEmpty)
                           ELSE (IF eff = "fail" THEN RDEmpty ELSE data)
   IN IF n = 1
@@ -137,7 +139,7 @@ Finish(M, outcome, data) ==
        ELSE LET p == M.fr[n - 1]
                 p2 == [p EXCEPT !.ok = okw, !.rd = rd1, !.pc = @ + 1]
             IN [fr |-> Append(SubSeq(M.fr, 1, n - 2), p2), st |-> st1, logs |-> lg1, dev |-> dev1, res |-> M.res,
-                mk |-> M.mk \cup {"sub-" \o f.kind \o "-" \o eff}
+                mk |-> M.mk \cup {"sub-" \o (IF isCreate THEN "create" ELSE "call") \o "-" \o eff}
                             \cup (IF isCreate /\ eff = "ok" /\ data.sz # 0 /\ ~depositFails THEN {"code-deposited"} ELSE {})]
 
 (* precompiled contracts on the 32-byte input word x: [ok, rd] *)
@@ -197,7 +199,8 @@ DoCreate(M, o) ==
      ELSE IF tgt.nonce # 0 \/ tgt.code # "none" THEN Push0(Mark([M1 EXCEPT !.st = st1], "collision"))     \* address collision
      ELSE [M1 EXCEPT !.st = st3,
                      !.dev = (IF NewNonce = 0 THEN @ \cup {"nonce0"} ELSE @),
-                     !.fr = Append(M.fr, Frame(new, o.t, f.static, f.self, o.val, "0", "create", st1, M.logs, f.fg))]
+                     !.fr = Append(M.fr, Frame(new, o.t, f.static, f.self, o.val, "0",
+                                               IF o.op = "CREATE" THEN "create" ELSE "create2", st1, M.logs, f.fg))]
 
 Apply(M, o) ==
   LET f == Top(M)
